@@ -19,10 +19,13 @@ pub struct Case {
 pub fn gen_case(t: &mut Tape, tier: Tier) -> Option<Case> {
     let mo = if t.chance(0.3) { 1.0 / 64.0 } else { 0.15 };
     let g = gen::gen_phys_graph(t, tier.pick(8, 9), 5, mo, 6)?;
-    let (free, masses) = gen::gen_kin_data(t, &g);
+    let (free, masses) = if t.chance(0.2) { gen::gen_kin_data_special(t, &g) } else { gen::gen_kin_data(t, &g) };
     let kin = gen::gen_routing(t, &g, &free, &masses, tier.pick(4, 6));
     let kin2 = gen::gen_routing(t, &g, &free, &masses, tier.pick(4, 6));
     let (x, classes) = gen::gen_point(t, &g, &gen::MODERATE);
+    if !crate::oracle::sym::Sym::new(&g, &kin.inflow, &kin.masses).f_nonzero() {
+        return None;
+    }
     Some(Case { a: Phys { g, kin, x, classes: classes.into_iter().map(String::from).collect() }, kin2 })
 }
 
@@ -113,7 +116,7 @@ pub fn check(c: &Case, ctx: &mut Ctx) -> Result<(), Failure> {
 }
 pub fn run(tier: Tier, seed: u64) -> i32 {
     let t0 = Instant::now();
-    let sp = Spec { id: "C09", rule: RULE, tape_len: 320, cases: tier.pick(20_000, 300_000), gen: gen_case, check, max_shrink_iters: 3000, shards: 16 };
+    let sp = Spec { id: "C09", rule: RULE, tape_len: 320, cases: tier.pick(60_000, 600_000), gen: gen_case, check, max_shrink_iters: 3000, shards: 16 };
     let mut stats = engine::run_spec(&sp, tier, seed);
     engine::run_regressions::<Case>("C09", check, &mut stats);
     engine::finish("C09", tier, seed, RULE, stats, t0, serde_json::json!({}), &["Feynman parameters read from the crate's debug log (checked by C07)", "brute-force 2-forest enumeration as oracle for F (all terms non-negative)", "tolerance 1000*eps*kappa*c_V with kappa, c_V computed exactly"])
